@@ -1,6 +1,7 @@
 (* RepairProofs6.v — C02 and C05 for the repair loop at the level of the block stream:
    soundness for every prefix, intact archives, monotonicity in the prefix, and exactly
    which bytes are recovered. *)
+From MLA Require Import Limit.
 From MLA Require Import Base Stream Blocks Writer Repair RepairSpec RepairPure
   RepairProofs1 RepairProofs2 RepairProofs3 RepairProofs4 RepairProofs5.
 From Coq Require Import ZifyBool ZifyNat ZifyN.
@@ -48,6 +49,7 @@ Proof.
 Qed.
 
 Section Final.
+  Context {LIM : Limit}.
   Variable FNMAX CACHE : N.
   Hypothesis HFN : FNMAX < 2 ^ 64.
   Hypothesis HCACHE : 0 < CACHE.
@@ -93,6 +95,10 @@ Section Final.
     Hypothesis Hs0 : R s0 0.
     Variable fuel : nat.
     Hypothesis Hfuel : (N.to_nat (len w) < fuel)%nat.
+    (* finalize of the output writer did not fail with SerializationError: the footer of the
+       repaired archive fits BINCODE_MAX_DESERIALIZE (RepairProofs2.Wrep_finalize_unfit: that
+       is the only way this error arises on a well-formed source) *)
+    Hypothesis Hser : repair S fuel s0 w_init <> Err EDeser.
 
     (* exact description of the result *)
     Lemma repair_exact :
@@ -103,7 +109,7 @@ Section Final.
         good_output out obl /\ Forall2 same (recovered bl (len w)) (files_of obl).
     Proof.
       destruct (repair_spec S w R HR FNMAX CACHE HFN HCACHE T_START T_CONTENT T_EOA T_EOF Htags H H_len
-                  bl trailer fuel s0 Hwf Htr Hpre Hs0 Hfuel)
+                  bl trailer fuel s0 Hwf Htr Hpre Hs0 Hfuel Hser)
         as (out & obl & ft & Hr & F1 & F2 & F3 & F4 & F5 & F6).
       exists out, obl. split; [exact Hr|]. split; [|exact F6].
       repeat split; try assumption; [exists ft; exact F2|].
@@ -226,6 +232,7 @@ Section Final.
     (* C02: every cut point; fuel n + 1 suffices *)
     Theorem repair_cut_sound n S R s0 fuel :
       Refines S (takeN n stream) R -> R s0 0 -> (N.to_nat n < fuel)%nat ->
+      repair S fuel s0 w_init <> Err EDeser ->
       exists status unfinished out obl,
         repair S fuel s0 w_init = Ok (status, unfinished, out) /\
         good_output out obl /\
@@ -239,21 +246,22 @@ Section Final.
            (forall f, In f (files_of bl) -> f_ended f = true)) /\
         (status = FEndOfData \/ status = FEofNextBlock).
     Proof.
-      intros HR Hs0 Hfuel.
-      apply (repair_sound_any_prefix S (takeN n stream) R HR bl trailer Hwf Htr (prefix_takeN _ _) s0 Hs0).
+      intros HR Hs0 Hfuel Hser.
+      apply (repair_sound_any_prefix S (takeN n stream) R HR bl trailer Hwf Htr (prefix_takeN _ _) s0 Hs0); [|exact Hser].
       pose proof (len_cut n). lia.
     Qed.
 
     (* C05: the whole archive *)
     Theorem repair_intact_complete S R s0 fuel :
       In BEnd bl -> Refines S stream R -> R s0 0 -> (N.to_nat (len stream) < fuel)%nat ->
+      repair S fuel s0 w_init <> Err EDeser ->
       exists out obl,
         repair S fuel s0 w_init = Ok (FEndOfData, [], out) /\
         good_output out obl /\ Forall2 same (files_of bl) (files_of obl) /\
         (forall f, In f (files_of bl) -> f_ended f = true).
     Proof.
-      intros Hend HR Hs0 Hfuel.
-      apply (repair_intact_any S stream R HR bl trailer Hwf Htr (prefix_refl _) s0 Hs0 fuel Hfuel Hend).
+      intros Hend HR Hs0 Hfuel Hser.
+      apply (repair_intact_any S stream R HR bl trailer Hwf Htr (prefix_refl _) s0 Hs0 fuel Hfuel Hser Hend).
       unfold stream. rewrite len_app, len_body. lia.
     Qed.
 
@@ -263,16 +271,17 @@ Section Final.
       n <= m ->
       Refines S1 (takeN n stream) R1 -> R1 s1 0 -> (N.to_nat n < fuel1)%nat ->
       Refines S2 (takeN m stream) R2 -> R2 s2 0 -> (N.to_nat m < fuel2)%nat ->
+      repair S1 fuel1 s1 w_init <> Err EDeser -> repair S2 fuel2 s2 w_init <> Err EDeser ->
       exists st1 u1 out1 obl1 st2 u2 out2 obl2,
         repair S1 fuel1 s1 w_init = Ok (st1, u1, out1) /\ good_output out1 obl1 /\
         repair S2 fuel2 s2 w_init = Ok (st2, u2, out2) /\ good_output out2 obl2 /\
         forall name, prefix (content_of (files_of obl1) name) (content_of (files_of obl2) name).
     Proof.
-      intros Hnm HR1 Hs1 Hf1 HR2 Hs2 Hf2.
+      intros Hnm HR1 Hs1 Hf1 HR2 Hs2 Hf2 Hser1 Hser2.
       destruct (repair_exact S1 (takeN n stream) R1 HR1 bl trailer Hwf Htr (prefix_takeN _ _) s1 Hs1 fuel1)
-        as (out1 & obl1 & Hr1 & Hg1 & Hsame1); [pose proof (len_cut n); lia|].
+        as (out1 & obl1 & Hr1 & Hg1 & Hsame1); [pose proof (len_cut n); lia|exact Hser1|].
       destruct (repair_exact S2 (takeN m stream) R2 HR2 bl trailer Hwf Htr (prefix_takeN _ _) s2 Hs2 fuel2)
-        as (out2 & obl2 & Hr2 & Hg2 & Hsame2); [pose proof (len_cut m); lia|].
+        as (out2 & obl2 & Hr2 & Hg2 & Hsame2); [pose proof (len_cut m); lia|exact Hser2|].
       eexists _, _, out1, obl1, _, _, out2, obl2.
       split; [exact Hr1|]. split; [exact Hg1|]. split; [exact Hr2|]. split; [exact Hg2|].
       intros name. rewrite (same_content _ _ name Hsame1), (same_content _ _ name Hsame2).
@@ -285,14 +294,15 @@ Section Final.
     (* C05: nothing that is present before the cut is lost *)
     Theorem repair_max n S R s0 fuel :
       Refines S (takeN n stream) R -> R s0 0 -> (N.to_nat n < fuel)%nat ->
+      repair S fuel s0 w_init <> Err EDeser ->
       exists status unfinished out obl,
         repair S fuel s0 w_init = Ok (status, unfinished, out) /\
         good_output out obl /\
         (forall f, In f (files_of bl) ->
            content_of (files_of obl) (f_name f) = present (f_id f) bl (N.min n (len stream))).
     Proof.
-      intros HR Hs0 Hfuel. rewrite <- len_takeN.
-      apply (repair_max_any_prefix S (takeN n stream) R HR bl trailer Hwf Htr (prefix_takeN _ _) s0 Hs0).
+      intros HR Hs0 Hfuel Hser. rewrite <- len_takeN.
+      apply (repair_max_any_prefix S (takeN n stream) R HR bl trailer Hwf Htr (prefix_takeN _ _) s0 Hs0); [|exact Hser].
       pose proof (len_cut n). lia.
     Qed.
   End Cuts.
